@@ -214,8 +214,8 @@ class TypedGen(Gen):
         return "(dot %s (id s))" % r.choice(["f", "g"])
 
 
-def operator_strings(G):
-    """every pair / triple of operators around atoms: the complete finite part of the table"""
+def operator_strings(G, thorough=False):
+    """every pair (thorough: also every triple) of operators around atoms: the complete finite part of the table"""
     lit = {}
     for l, t in G["literals"]:
         lit.setdefault(t, l)
@@ -226,6 +226,17 @@ def operator_strings(G):
     pres = [lit[t] for t, _p, _k in G["pre"]]
     posts = [lit[t] for t, _k in G["post"]]
     out = []
+    if thorough:
+        for o1 in bins:
+            for o2 in bins:
+                for o3 in bins:
+                    out.append("a %s b %s c %s d" % (o1, o2, o3))
+                for pr in pres:
+                    out.append("a %s %s b %s c" % (o1, pr, o2))
+                for po in posts:
+                    out.append("a %s b %s %s c" % (o1, po, o2))
+                out.append("a %s b ? c %s d : e" % (o1, o2))
+                out.append("p ? a %s b : c %s d" % (o1, o2))
     for o1 in bins:
         for o2 in bins:
             out.append("a %s b %s c" % (o1, o2))
@@ -338,7 +349,7 @@ def run(ctx):
     # 3 correspondence ----------------------------------------------------------------------------
     texts = []            # (origin, text, expected-kind-tree-or-None)
     if G["bin"]:
-        for t in operator_strings(G):
+        for t in operator_strings(G, ctx.thorough):
             texts.append(("pair", t, None))
     gen = Gen(G, ctx.rng) if G["bin"] else None
     ntrees = (6000 if not ctx.thorough else 80000) if gen else 0
